@@ -9,7 +9,9 @@ abandoned without _destroy/flush) before every primitive write, after the last o
 tearable one (sampled byte counts); the directory is reopened with the real class.  The reopened journal
 must be the old list or exactly old[2:].  Silent on the repaired tree; on the old code it trips with
 `journal.deleteEntriesTo:kill-between-clear-and-readd` (the recorder follows both code versions: the old
-head drop writes into the journal file itself)."""
+head drop writes into the journal file itself).  The scenario is also examined at file-system level (the
+directory before / after every file-system call of the head drop); a journal file missing in between is
+reported as `journal.deleteEntriesTo:journal-file-missing-after-kill`."""
 import os
 import shutil
 import time
@@ -61,46 +63,56 @@ def scenario(jm, tmp, pre=PRE, op=OP):
                 first = first or (k, t, "journal.deleteEntriesTo:exception:" + type(exc).__name__, "raised %r" % (exc,))
                 lib.remove_files(kp)
                 continue
-            o = lib.open_image(jm, kp, img)
-            try:
+            got = None
+            if img[0] is None:
+                m = lib.judge_image(jm, kp, img, op, ref, {1}, (0, None))      # journal file missing
+            else:
+                o = lib.open_image(jm, kp, img)
                 if "err" in o:
-                    rows.append({"k": k, "t": t, "reopen": o["err"]})
-                    first = first or (k, t, "journal.deleteEntriesTo:reopen-raises-after-kill:" + o["err"], "reopen raises " + o["err"])
-                    continue
-                got = o["ents"]
-                m = lib.crash_monitor(op, ref, got, o["ci"], {o["ci"]})
-                ok = m is None and (got == ref or got == keep)      # the statement, spelled out once more
-                rows.append({"k": k, "t": t, "killed": killed, "after": lib.prims_str(done, jm), "survivors": len(got),
-                             "is_old_or_kept": ok, "tmp_left": img[3] is not None})
-                if not ok and first is None:
-                    sig = m[0] if m is not None else "journal.deleteEntriesTo:neither-old-nor-kept"
-                    first = (k, t, sig, "killed after %d of %d primitive writes (%s)%s: reopened journal holds %d entries %s, "
-                                        "entries to keep were %s" % (k, np_, lib.prims_str(done, jm) if done else "none",
-                                                                      " +%d bytes of the next" % t if t else "",
-                                                                      len(got), lib.short_ents(got), lib.short_ents(keep)))
-            finally:
-                if "real" in o:
+                    m = ("journal.deleteEntriesTo:reopen-raises-after-kill:" + o["err"], "reopening raises " + o["err"])
+                else:
+                    got = o["ents"]
+                    m = lib.crash_monitor(op, ref, got, o["ci"], {o["ci"]})
                     o["real"].abandon()
                 lib.remove_files(kp)
+            ok = m is None and (got == ref or got == keep)      # the statement, spelled out once more
+            rows.append({"k": k, "t": t, "killed": killed, "after": lib.prims_str(done, jm)[-60:],
+                         "survivors": None if got is None else len(got), "is_old_or_kept": ok, "tmp_left": img[3] is not None,
+                         "journal_file": img[0] is not None})
+            if not ok and first is None:
+                sig = m[0] if m is not None else "journal.deleteEntriesTo:neither-old-nor-kept"
+                first = (k, t, sig, "killed after %d of %d primitive writes (...%s)%s: %s; entries to keep were %s"
+                         % (k, np_, lib.prims_str(done, jm)[-80:] if done else "none", " +%d bytes of the next" % t if t else "",
+                            m[1] if m is not None else "reopened journal holds %s" % lib.short_ents(got or []), lib.short_ents(keep)))
     return rows, first, np_
 
 
 def run(ctx):
     t0 = time.time()
     jm = lib.load_journal(ctx.repo)
-    rows, first, np_ = scenario(jm, ctx.tmpdir())
+    tmp = ctx.tmpdir()
+    rows, first, np_ = scenario(jm, tmp)
     viols = []
     if first is not None:
         viols.append({"signature": first[2],
                       "what": "FileJournal with 5 entries, deleteEntriesTo(2) " + first[3],
                       "replay": {"witness": "d15_journal_headdrop_kill", "pre": PRE, "op": OP, "k": first[0], "t": first[1]}})
+    # the same scenario at file-system level: the directory right before / after every file-system call of
+    # the head drop (remove, create, write, rename ...), reopened with the real class.  A head drop that
+    # removes the journal before renaming the new file onto it is a defect of its own (not D15).
+    fcov = lib.Cov()
+    for v in lib.fs_check_sequence(jm, tmp, PRE + [OP], cov=fcov, limit=2):
+        if v["signature"] not in [w["signature"] for w in viols]:
+            v["replay"]["witness"] = "d15_journal_headdrop_kill"
+            viols.append(v)
     lost = sorted(set(r["k"] for r in rows if not r.get("is_old_or_kept", False)))
     return {"cases": len(rows), "distinct": len(rows), "violations": viols, "disagreements": [],
             "samples": [r for r in rows if r.get("t") == 0][:3],
             "coverage": {"tripped": bool(viols), "primitives_of_op": np_, "crash_points": len(rows),
                          "torn_points": len([r for r in rows if r.get("t")]),
                          "points_leaving_a_tmp_file": len([r for r in rows if r.get("tmp_left")]),
-                         "crash_points_losing_kept_entries": lost},
+                         "crash_points_losing_kept_entries": lost,
+                         "fs_calls_of_the_head_drop": fcov.get("fs.headdrop_calls", 0), "fs_images": fcov.get("fs_images", 0)},
             "wall_s": round(time.time() - t0, 2)}
 
 
@@ -109,8 +121,11 @@ def replay(ctx, violation):
     rp = violation.get("replay") or {}
     tmp = ctx.tmpdir()
     try:
+        if rp.get("kind") == "fs":
+            m, killed = lib.replay_fs(jm, tmp, rp)
+            return {"violated": m is not None, "signature": m and m[0], "what": m and m[1], "killed": killed, "tree": ctx.repo}
         rows, first, np_ = scenario(jm, tmp, rp.get("pre", PRE), rp.get("op", OP))
     finally:
         shutil.rmtree(tmp, ignore_errors=True)      # ./check --replay does not clean up the ctx
-    return {"violated": first is not None, "signature": first[2] if first else None,
-            "what": first and first[3], "crash_points": rows, "tree": ctx.repo}
+    return {"violated": first is not None, "signature": first[2] if first else None, "what": first and first[3],
+            "crash_points": len(rows), "failing_points": [r for r in rows if not r["is_old_or_kept"]][:6], "tree": ctx.repo}
